@@ -131,7 +131,11 @@ Inductive wop :=
 | WUnsubRet (s : nat) (ok : bool) (closed : bool)   (* Unsubscribe returned; notifications channel observed closed *)
 | WDrop (resub : list (nat * N))            (* connection closed by the server; after the reconnect the server
                                                received these eth_subscribe frames (sub, id), in order *)
-| WSubs (l : list nat).                     (* Subscriptions(): the local ids, sorted *)
+| WSubs (l : list nat)                      (* Subscriptions(): the local ids, sorted *)
+| WCallSendFail (k : nat) (o : oout)        (* CallRPC whose websocket send failed (connection down, context
+                                               cancelled): registered, not sent, returned o *)
+| WSubSendFail (s : nat) (r : N).           (* Subscribe whose websocket send failed: registered, request id
+                                               allocated, not sent, unregistered; returned r (as WSubRet) *)
 
 Definition steps (w : wstate) (l : list wev) : option wstate := wrun l w.
 
@@ -360,6 +364,22 @@ Definition wop_step (w : wstate) (o : wop) : wstate + N :=
       end
   | WSubs l =>
       if natlist_eqb (sort_nat (w_conf w)) l then inl w else inr 8%N
+  | WCallSendFail k o =>
+      match steps w [ECallReg k; ECallSend k false; ECallRemove k] with
+      | Some w1 => match w_cpc w1 k with
+                   | CDone _ mo => if oout_eqb (oout_of mo) o then inl w1 else inr 15%N
+                   | _ => inr 1%N
+                   end
+      | None => inr 1%N
+      end
+  | WSubSendFail s r =>
+      match steps w [ESubCfg s; ESubInflight s; ESubSend s false; ESubRemoveCfg s] with
+      | Some w1 => match w_spc w1 s with
+                   | SDone None => if (r =? 2)%N then inl w1 else inr 9%N
+                   | _ => inr 1%N
+                   end
+      | None => inr 1%N
+      end
   end.
 
 Fixpoint wops_run (w : wstate) (l : list wop) : N :=
